@@ -237,21 +237,19 @@ def run (c : Cfg) (s : State) : List Action → Option State
 /-- everybody but `i` -/
 def others (c : Cfg) (i : Nat) : List Nat := (List.range c.n).filter (fun j => j != i)
 
+/-- a payload broadcast by `i` reaches everybody else -/
+def deliverAll (c : Cfg) (i : Nat) (m : Msg) : List Action := (others c i).map (fun k => .deliver k m)
+
 /-- The synchronous ("fair") schedule of one height `h` in view 0 with proposal `p`: the primary's timer
-fires and it proposes; every payload is delivered to everybody before any other timer fires; every
-validator responds, commits and accepts as soon as its guard holds. -/
+fires and it proposes; every payload is delivered to everybody right after it is sent, before any other
+timer fires; every validator responds, commits and accepts as soon as its guard holds. -/
 def fairRound (c : Cfg) (h p : Nat) : List Action :=
   let pr := c.primary h 0
   let b : Block := ⟨h, 0, p⟩
-  let backups := others c pr
-  let all := List.range c.n
-  [.timeout pr, .sendPrepReq pr p]
-  ++ backups.map (fun j => .deliver j (.item (.prepReq pr b)))
-  ++ backups.map (fun j => .sendPrepResp j b)
-  ++ backups.flatMap (fun j => (others c j).map (fun k => .deliver k (.item (.prepResp j b))))
-  ++ all.map (fun i => .sendCommit i b)
-  ++ all.flatMap (fun i => (others c i).map (fun k => .deliver k (.item (.commit i b))))
-  ++ all.map (fun i => .accept i b)
+  [.timeout pr, .sendPrepReq pr p] ++ deliverAll c pr (.item (.prepReq pr b))
+  ++ (others c pr).flatMap (fun j => .sendPrepResp j b :: deliverAll c j (.item (.prepResp j b)))
+  ++ (List.range c.n).flatMap (fun i => .sendCommit i b :: deliverAll c i (.item (.commit i b)))
+  ++ (List.range c.n).map (fun i => .accept i b)
 
 /-- `k` synchronous rounds starting at height `h`, round `r` carrying proposal `props r` -/
 def fairRounds (c : Cfg) (h : Nat) (props : Nat → Nat) : Nat → List Action
